@@ -1,6 +1,7 @@
 import TypifyModel.Model.StrConv
 import TypifyModel.Model.Render
 import TypifyModel.Model.Builder
+import TypifyModel.Model.Api
 import TypifyModel.Generated.Derives
 import TypifyModel.Driver.IrJson
 import TypifyModel.Driver.Regex
@@ -94,20 +95,38 @@ def evalOp (c : Case) (op tyName payload : String) : String :=
          | .ok v => match display σ fuel t v with
            | .error e => showE e
            | .ok s => "ok " ++ renderJson (.str s))
-    | "build" =>
+    | "build" | "build_str" | "build_refstr" =>
       (match parseJson payload, σ.get t with
        | some top, some ⟨.struct _ props _ _, _, _⟩ =>
          let set := (jget top "set").getD (.obj [])
+         -- build_str / build_refstr: a JSON string for a property whose type is a named newtype / enum with
+         -- `FromStr` is handed to the setter as `String` / `&str` (TryFrom<String> / TryFrom<&str>); the text of
+         -- the inner conversion error is not modelled ("?"; the check compares up to the property name)
+         let stringy (p : Field) : Bool := op != "build" && (match σ.get p.ty with
+           | some ⟨.newtype .., _, impls⟩ => impls.contains .fromStr
+           | some ⟨.enum .., _, impls⟩ => impls.contains .fromStr
+           | _ => false)
+         let arg (p : Field) (j : Json) : Except E Builder.Arg :=
+           match stringy p, j with
+           | true, .str s =>
+             (match tryFromStr ext σ fuel p.ty s with
+              | .ok v => .ok (.value v)
+              | .error .reject => .ok (.convFail "?")
+              | .error e => .error e)
+           | _, _ => (match de ext σ fuel p.ty j with | .ok v => .ok (.value v) | .error e => .error e)
          -- a value that does not deserialize into the property type cannot be handed to the setter
-         let bad := props.find? (fun p => match jget set p.name with
-           | some j => (match de ext σ fuel p.ty j with | .ok _ => false | _ => true)
-           | none => false)
+         let bad := props.findSome? (fun p => match jget set p.name with
+           | some j => (match arg p j with
+             | .ok _ => none
+             | .error .reject => some ("badvalue " ++ p.name)
+             | .error e => some (showE e))
+           | none => none)
          (match bad with
-          | some p => "badvalue " ++ p.name
+          | some msg => msg
           | none =>
             let choice : Field → Option Builder.Arg := fun p =>
               match jget set p.name with
-              | some j => (match de ext σ fuel p.ty j with | .ok v => some (.value v) | _ => none)
+              | some j => (match arg p j with | .ok a => some a | _ => none)
               | none => none
             match Builder.slots ext σ fuel choice props with
             | .error e => showE e
@@ -149,7 +168,7 @@ def parseSettings (top dump : Json) : Render.Settings :=
 
 open Render in
 def fieldJson (f : FieldS) : Json :=
-  .obj [("name", .str f.name), ("pub", .bool f.isPub), ("serde", .arr (f.serde.map .str)), ("ty", .str f.ty)]
+  .obj [("name", .str f.name), ("pub", .bool f.isPub), ("serde", .arr (f.serde.map (fun a => .str a.render))), ("ty", .str f.ty)]
 
 open Render in
 def summaryJson (s : Summary) : Json :=
@@ -174,6 +193,37 @@ def summaryJson (s : Summary) : Json :=
   .obj [("builders", .arr (s.builders.map .str)), ("default_fns", .arr (s.defaultFns.map .str)),
         ("items", .arr (s.items.map item))]
 
+def kindOf (d : Details) : String :=
+  match d with
+  | .enum .. => "enum" | .struct .. => "struct" | .newtype .. => "newtype" | .native .. => "builtin"
+  | .option _ => "option" | .box _ => "box" | .vec _ => "vec" | .map _ _ => "map" | .set _ => "set"
+  | .array _ _ => "array" | .tuple _ => "tuple" | .unit => "unit" | .boolean => "builtin"
+  | .integer _ => "builtin" | .float _ => "builtin" | .string => "string" | .jsonValue => "builtin"
+  | .reference _ => "reference"
+
+/-- the model's answers to the introspection API for every entry (compared with `iter_types()`) -/
+def apiJson (c : Case) : Json :=
+  let σ := c.space
+  let st := c.settings
+  .arr (σ.entries.map fun (id, ent) =>
+    let hi (i : Impl) : Json := .bool (Api.hasImpl σ 64 id i)
+    let det : List (String × Json) :=
+      match Api.details ent with
+      | .struct ps => [("props", .arr (ps.map fun (n, r, t) =>
+          .obj [("name", .str n), ("required", .bool r), ("type_id", .int t), ("type_ident", .str (Render.typeIdent st σ 64 t))]))]
+      | .enum vs => [("variants", .arr (vs.map fun (n, v) =>
+          match v with
+          | .simple => .obj [("kind", .str "simple"), ("name", .str n)]
+          | .tuple ts => .obj [("kind", .str "tuple"), ("name", .str n), ("types", .arr (ts.map fun (t : Id) => Json.int (t : Int)))]
+          | .struct ps => .obj [("kind", .str "struct"), ("name", .str n),
+              ("props", .arr (ps.map fun (pn, t) => .obj [("name", .str pn), ("type_id", .int t)]))]))]
+      | .newtype inner => [("inner", .obj [("type_id", .int inner), ("type_ident", .str (Render.typeIdent st σ 64 inner))])]
+      | .other => []
+    .obj (Json.sortObj ([("id", .int id), ("name", .str (Render.typeIdent st σ 64 id)), ("kind", .str (kindOf ent.details)),
+      ("has_impl", .obj [("Default", hi .default), ("Display", hi .display), ("FromStr", hi .fromStr)]),
+      ("recorded_impls_agree", .bool ([Impl.default, .display, .fromStr].all fun i => ent.impls.contains i == Api.hasImpl σ 64 id i)),
+      ("builder", match Api.builder st ent with | some b => .str b | none => .null)] ++ det)))
+
 def step (st : St) (line : String) : St × String :=
   match splitN line 2 with
   | ["ir", case, text] =>
@@ -184,6 +234,10 @@ def step (st : St) (line : String) : St × String :=
        match parseSpace dump with
        | some σ => ({ cases := (case, ⟨σ, !patternsOk σ, parseSettings top dump⟩) :: st.cases }, "ok")
        | none => (st, "bad-ir"))
+  | ["api", case] =>
+    (match st.cases.find? (fun c => c.1 == case) with
+     | some (_, c) => (st, renderJson (apiJson c))
+     | none => (st, "no-case"))
   | ["render", case] =>
     (match st.cases.find? (fun c => c.1 == case) with
      | some (_, c) =>
